@@ -212,3 +212,56 @@ def gathers(repo: Repo) -> List[Tuple[Func, FuncView, ast.Call]]:
             fv = fv or FuncView(f)
             out.append((f, fv, c))
     return out
+
+
+FIELD_EXECUTION_MODULES = ("tartiflette/coercers/outputs/", "tartiflette/execution/execute.py", "tartiflette/resolver/factory.py")
+
+
+def gather_operand_kind(repo: Repo, f: Func, fv: FuncView, g: ast.Call) -> str:
+    """field-execution | other, by the defining module of the operands' callee."""
+    texts = []
+    for a in g.args:
+        v = a.value if isinstance(a, ast.Starred) else a
+        for c in ast.walk(v):
+            if isinstance(c, ast.Call):
+                tgt = repo.resolve_call(f, c)
+                if tgt is not None and getattr(tgt, "module", None) is not None and tgt.module.relpath.startswith(FIELD_EXECUTION_MODULES):
+                    return "field-execution"
+                if isinstance(c.func, ast.Attribute) and c.func.attr == "resolver":
+                    return "field-execution"
+        texts.append(unparse(v))
+    for t in texts:
+        for name in [n.id for n in ast.walk(ast.parse(t, mode="eval")) if isinstance(n, ast.Name)]:
+            for n in walk_no_nested(f.node):
+                if isinstance(n, ast.Assign) and isinstance(n.targets[0], ast.Subscript) and unparse(n.targets[0].value) == name and isinstance(n.value, ast.Name):
+                    for m in walk_no_nested(f.node):
+                        if isinstance(m, ast.Assign) and unparse(m.targets[0]) == n.value.id and isinstance(m.value, ast.Call) and isinstance(m.value.func, ast.Attribute) \
+                                and m.value.func.attr == "resolver":
+                            return "field-execution"
+    return "other"
+
+
+def check_field_execution_gathers(ck, repo: Repo):
+    """Gathers whose operands run resolvers / complete values return only after *all* operands finished."""
+    n_field = 0
+    for f, fv, g in gathers(repo):
+        kind = gather_operand_kind(repo, f, fv, g)
+        if kind == "field-execution":
+            n_field += 1
+            re_ = None
+            for k in g.keywords:
+                if k.arg == "return_exceptions":
+                    re_ = unparse(k.value)
+            ck.ob(f"{f.qualname}: gather over field executions / value completions passes return_exceptions=True (it returns only after all operands finished)",
+                  re_ == "True", f, g, construct=f"gather:{f.qualname}:return-exceptions",
+                  detail="without it (or with a computed flag) the first failure returns at once while sibling resolvers are still running")
+        ck.ob(f"{f.qualname}: the gather is awaited where it is created", fv.is_awaited(g), f, g, construct=f"gather:{f.qualname}:awaited")
+    ck.counts["field_execution_gathers"] = n_field
+    # every list of completions is either gathered this way or awaited item by item
+    lc = repo.func("tartiflette/coercers/outputs/list_coercer.py", "list_coercer_concurrently")
+    lv = FuncView(lc)
+    cvs = lv.calls("complete_value_catching_error")
+    for c in cvs:
+        ok, how = consumption(lv, c)
+        in_gather = any(contains(g, c) for _, _, g in gathers(repo) if _ is lc) if False else None
+        ck.ob("list_coercer_concurrently: item completions are consumed by an awaited gather / await", ok, lc, c, construct="gather:list:consumed", detail=how)
